@@ -478,7 +478,7 @@ func gen(seed int64, n int, tier string) []interface{} {
 				break
 			}
 		}
-		newName := []string{"z", "renamedWithAMuchLongerIdentifier", old + "2", strings.ToUpper(old[:1]) + old[1:], "ab"}[r.Intn(5)]
+		newName := []string{"z", "renamedWithAMuchLongerIdentifier", old + "2", strings.ToUpper(old[:1]) + old[1:], "ab", "größe", "数える"}[r.Intn(7)]
 		if len(newName) == len(old) && newName == old {
 			newName = old + "X"
 		}
